@@ -241,7 +241,9 @@ theorem safe_list_step (W : World) (g : GoodParams W.P) (f : Nat) (ih : SafeAt W
                 intro ps
                 split
                 · exact ih.list _ _ _
-                · exact safe_bindR _ _ (ih.asElem _ _ _ _ _) (fun _ _ => safe_prepend _ _ (ih.list _ _ _))
+                · split
+                  · exact ih.list _ _ _
+                  · exact safe_bindR _ _ (ih.asElem _ _ _ _ _) (fun _ _ => safe_prepend _ _ (ih.list _ _ _))
                 · split
                   · split
                     · exact ih.list _ _ _
